@@ -992,7 +992,12 @@ func (v Value) MarshalJSON() ([]byte, error) {
 	switch v.kind {
 	case valueUndefined, valueNull:
 		return []byte("null"), nil
-	case valueBoolean, valueNumber:
+	case valueNumber:
+		if f, ok := v.value.(float64); ok && (math.IsNaN(f) || math.IsInf(f, 0)) {
+			return []byte("null"), nil
+		}
+		return json.Marshal(v.value)
+	case valueBoolean:
 		return json.Marshal(v.value)
 	case valueString:
 		return json.Marshal(v.string())
